@@ -6,4 +6,4 @@ Definition keepN : N := N.add 0 0.
 Definition keepZ : Z := Z.add 0 0.
 Definition keepNat : nat := length (@nil N).
 Definition keepR : result N := Ok 0%N.
-Extraction "model_c18.ml" keepN keepZ keepNat keepR model_obs judge.
+Extraction "model_c18.ml" keepN keepZ keepNat keepR model_obs judge model_result judge_hr build_refused cred_item.
